@@ -35,6 +35,23 @@ class C02Monitor(Monitor):
         # seen in the atoms (not the code's own counter)
         self.N_true = w.sc.get("params", {}).get("number_of_exchange_particles")
         self.N_consistent = True
+        self.labels_merged = False
+
+    def _observe_label_merge(self, w):
+        """Open finding KF-C05: particles inserted by one composite exchange call share one label.  Observed directly on
+        the exchange moves' labels (a non-negative label covering more atoms than one particle has)."""
+        if self.labels_merged or not hasattr(w, "template") or not len(w.template):
+            return
+        k = len(w.template)
+        for name in w.mc.moves:
+            for lf in w.leaves_of(w.mc.moves[name].move):
+                if type(lf).__name__ == "ExchangeMove" and (lf.default_label is None or lf.default_label < 0):
+                    lab = np.asarray(lf.labels)
+                    lab = lab[lab >= 0]
+                    if len(lab) and np.max(np.bincount(lab)) > k:
+                        self.labels_merged = True
+                        w.result.count("probe.labels_merged_kf_c05")
+                        return
 
     def on_trial(self, w, name, verdict, pre, post):
         if self.N_true is None or not hasattr(w, "template"):
@@ -53,6 +70,7 @@ class C02Monitor(Monitor):
         self.cell_pre = np.array(w.atoms.cell.array, copy=True)
         self.n_pre = len(w.atoms)
         self.N_pre = getattr(w.mc.context, "number_of_exchange_particles", None)
+        self._observe_label_merge(w)
 
     def _lnA(self, w, inner, after: bool):
         """Reference ln A for the trial configuration now on the atoms.
@@ -174,6 +192,15 @@ class C02Monitor(Monitor):
             w.result.count("probe.beyond_709_favourable" if lnA > 0 else "probe.beyond_709_unfavourable")
         if bool(verdict) != expected:
             case = "rejected_but_rule_accepts" if expected else "accepted_but_rule_rejects"
+            if (kind in ("gc_insertion", "gc_deletion") and self.labels_merged and self.N_pre is not None
+                    and int(self.N_pre) != int(self.N_true)):
+                # consequence of the open finding KF-C05 (see DESIGN.md section 11): a label shared by several particles
+                # was deleted as "one particle", the simulation's particle counter is off from here on
+                self.violate(w, "particle_counter_wrong_after_label_merge",
+                             f"driver={drv}|table=composite_exchange",
+                             f"the simulation counts {self.N_pre} exchangeable particles, the atoms hold {self.N_true}; "
+                             f"{type(inner).__name__} returned {verdict!r}, ln A with the true count = {lnA!r}, u = {u!r}")
+                return
             self.violate(w, "wrong_decision", f"rule={kind}|driver={drv}|case={case}",
                          f"{type(inner).__name__} returned {verdict!r}; ln A = {lnA!r}, u = {u!r} "
                          f"(T={T}, move {w.move_kind(name)})")
@@ -208,6 +235,13 @@ class C02(HistoryCampaign):
                    "the strain of the isotension work term is taken from the value the criteria publishes (the statement does not define it)"]
 
     def generate(self, rnd, tier, index):
+        if index == 0:
+            # pinned history for the open finding KF-C02-1 (a consequence of KF-C05 that only shows on a marginal
+            # decision): every run of the check exhibits it, whatever VERIF_SEED is
+            import json
+            import os
+            with open(os.path.join(os.path.dirname(__file__), "pinned", "c02_label_merge.json")) as f:
+                return json.load(f)
         sc = gen_history(rnd, self.flavor)
         ntr = sum(s["n"] for s in sc["steps"]) * sc["params"]["max_cycles"]
         if rnd.random() < 0.6:
